@@ -326,8 +326,10 @@ class Rule_CV11(BaseRule):
                     convert_content = self._get_children(bracketed)
                     # We only care about 2-arguments convert
                     # some dialects allow an optional 3rd argument e.g TSQL
-                    # which cannot be rewritten into CAST
-                    if len(convert_content) > 2:
+                    # which cannot be rewritten into CAST. Anything with fewer
+                    # than two arguments (e.g. an incomplete `CONVERT(a)`)
+                    # cannot be rewritten either.
+                    if len(convert_content) != 2:
                         # set previous_skipped
                         if previous_skipped is None:
                             # Only update prior_type_casting_style
@@ -347,6 +349,9 @@ class Rule_CV11(BaseRule):
                     expression_datatype_segment = self._get_children(
                         functional_context.segment
                     )
+                    # We need both an expression and a datatype.
+                    if len(expression_datatype_segment) < 2:
+                        return None
 
                     fixes = self._cast_fix_list(
                         context,
@@ -363,7 +368,7 @@ class Rule_CV11(BaseRule):
                 ).children(sp.is_type("bracketed"))
                 if current_type_casting_style == "cast":
                     cast_content = self._get_children(bracketed)
-                    if len(cast_content) > 2:
+                    if len(cast_content) != 2:
                         return None
 
                     fixes = self._convert_fix_list(
@@ -375,6 +380,9 @@ class Rule_CV11(BaseRule):
                     expression_datatype_segment = self._get_children(
                         functional_context.segment
                     )
+                    # We need both an expression and a datatype.
+                    if len(expression_datatype_segment) < 2:
+                        return None
                     fixes = self._convert_fix_list(
                         context,
                         expression_datatype_segment[1],
@@ -388,7 +396,7 @@ class Rule_CV11(BaseRule):
                 if current_type_casting_style == "cast":
                     # Get the content of CAST
                     cast_content = self._get_children(bracketed)
-                    if len(cast_content) > 2:
+                    if len(cast_content) != 2:
                         return None
 
                     fixes = self._shorthand_fix_list(
@@ -398,7 +406,7 @@ class Rule_CV11(BaseRule):
                     )
                 elif current_type_casting_style == "convert":
                     convert_content = self._get_children(bracketed)
-                    if len(convert_content) > 2:
+                    if len(convert_content) != 2:
                         return None
 
                     fixes = self._shorthand_fix_list(
@@ -435,6 +443,10 @@ class Rule_CV11(BaseRule):
                         sp.is_type("function_contents")
                     ).children(sp.is_type("bracketed"))
                     convert_content = self._get_children(bracketed)
+                    # An incomplete CONVERT (fewer than two arguments)
+                    # cannot be rewritten.
+                    if len(convert_content) < 2:
+                        return None
 
                     fixes = self._cast_fix_list(
                         context,
@@ -445,6 +457,9 @@ class Rule_CV11(BaseRule):
                     expression_datatype_segment = self._get_children(
                         functional_context.segment
                     )
+                    # We need both an expression and a datatype.
+                    if len(expression_datatype_segment) < 2:
+                        return None
 
                     for data_type_idx, seg in enumerate(expression_datatype_segment):
                         if seg.is_type("data_type"):
@@ -463,6 +478,9 @@ class Rule_CV11(BaseRule):
                         sp.is_type("function_contents")
                     ).children(sp.is_type("bracketed"))
                     cast_content = self._get_children(bracketed)
+                    # An incomplete CAST (e.g. `CAST(a)`) cannot be rewritten.
+                    if len(cast_content) < 2:
+                        return None
                     fixes = self._convert_fix_list(
                         context,
                         cast_content[1],
@@ -472,6 +490,9 @@ class Rule_CV11(BaseRule):
                     expression_datatype_segment = self._get_children(
                         functional_context.segment
                     )
+                    # We need both an expression and a datatype.
+                    if len(expression_datatype_segment) < 2:
+                        return None
                     fixes = self._convert_fix_list(
                         context,
                         expression_datatype_segment[1],
@@ -484,6 +505,9 @@ class Rule_CV11(BaseRule):
                 ).children(sp.is_type("bracketed"))
                 if current_type_casting_style == "cast":
                     cast_content = self._get_children(bracketed)
+                    # An incomplete CAST (e.g. `CAST(a)`) cannot be rewritten.
+                    if len(cast_content) < 2:
+                        return None
                     fixes = self._shorthand_fix_list(
                         context,
                         cast_content[0],
@@ -491,6 +515,9 @@ class Rule_CV11(BaseRule):
                     )
                 elif current_type_casting_style == "convert":
                     convert_content = self._get_children(bracketed)
+                    # An incomplete CONVERT cannot be rewritten.
+                    if len(convert_content) < 2:
+                        return None
                     fixes = self._shorthand_fix_list(
                         context,
                         convert_content[1],
